@@ -17,7 +17,8 @@ Require Import Verif.Db.Depth Verif.Db.DepthProps Verif.Db.Script Verif.Db.SqlIn
 
 (* ---- obligations against the current source (regenerated table) ---- *)
 Theorem C16_source_shape :
-  (table_order, column_order, delta_cfg) = (ByLineName, ByLineName, DCfg RefRefRetarget PkNonEmpty AutoVtBigint).
+  (depth_stop, table_order, column_order, delta_cfg) =
+  (StopNoProgress, ByLineName, ByLineName, DCfg RefRefRetarget PkNonEmpty AutoVtBigint).
 Proof. exact source_shape. Qed.
 Print Assumptions C16_source_shape.
 
@@ -37,35 +38,47 @@ Local Close Scope string_scope.
 (* ---- reference depth: terminates on acyclic graphs, independent of map order, equals longest path ---- *)
 Theorem C16_depth_is_longest_path : forall m d ord fuel,
   wf m -> is_depth m d -> perm_oracle ord -> (length m < fuel)%nat ->
-  exists st, depth_map fuel ord m = Ok st /\
+  exists st, depth_map depth_stop fuel ord m = Ok st /\
     (forall tb, In tb m -> depth_get (complete st) (tname tb) = d (tname tb)) /\
     (forall t k, (exists l, In (k, l) (bydepth st) /\ In t l) <-> (In t (map tname m) /\ d t = k)) /\
     NoDup (map fst (bydepth st)) /\ NoDup (concat (map snd (bydepth st))).
-Proof. exact depth_is_longest_path. Qed.
+Proof. exact (depth_is_longest_path depth_stop). Qed.
 Print Assumptions C16_depth_is_longest_path.
 
 Theorem C16_depth_order_independent : forall m d ord1 ord2 fuel,
   wf m -> is_depth m d -> perm_oracle ord1 -> perm_oracle ord2 -> (length m < fuel)%nat ->
-  exists st1 st2, depth_map fuel ord1 m = Ok st1 /\ depth_map fuel ord2 m = Ok st2 /\
+  exists st1 st2, depth_map depth_stop fuel ord1 m = Ok st1 /\ depth_map depth_stop fuel ord2 m = Ok st2 /\
     forall tb, In tb m -> depth_get (complete st1) (tname tb) = depth_get (complete st2) (tname tb).
-Proof. exact depth_order_independent. Qed.
+Proof. exact (depth_order_independent depth_stop). Qed.
 Print Assumptions C16_depth_order_independent.
 
 (* non-vacuity: a three-table model with a diamond meets the hypotheses and runs *)
 Example C16_depth_hypotheses_met : wf ex_model /\ is_depth ex_model ex_depth /\ perm_oracle rev_ord.
 Proof. split; [exact ex_model_wf|split; [exact ex_model_depth|intros r l; symmetry; apply Permutation_rev]]. Qed.
 
-Theorem C16_depth_cycle_refuted : forall fuel ord, perm_oracle ord -> depth_map fuel ord cyc_model = OutOfFuel.
+(* cyclic / dangling references: the recursion the repository had never ends; the current one ends on EVERY
+   model (no hypothesis), every table placed - the unorderable ones by name after all orderable ones *)
+Theorem C16_depth_cycle_refuted : forall fuel ord, perm_oracle ord -> depth_map StopNever fuel ord cyc_model = OutOfFuel.
 Proof. exact depth_cycle_refuted. Qed.
 Print Assumptions C16_depth_cycle_refuted.
+
+Theorem C16_depth_terminates : forall m ord fuel, (length m < fuel)%nat ->
+  exists st, depth_map depth_stop fuel ord m = Ok st /\ incomplete st = [].
+Proof. exact depth_terminates. Qed.
+Print Assumptions C16_depth_terminates.
+
+Example C16_depth_unorderable_placed : forall ord, ord = id_ord \/ ord = rev_ord ->
+  exists st, depth_map depth_stop 6 ord mixed_model = Ok st /\
+    levels_of st = [(0%N, [1%positive]); (1%N, [2%positive]); (2%N, [4%positive; 5%positive; 6%positive])].
+Proof. exact depth_unorderable_placed. Qed.
 
 (* ---- creation script ---- *)
 (* with the order the CURRENT source uses (C16_source_shape) every table is defined exactly once *)
 Theorem C16_create_each_table_once_partial : forall m d ck ord fuel,
   wf m -> is_depth m d -> perm_oracle ord -> (length m < fuel)%nat ->
-  exists l, create table_order ck fuel ord m = Ok l /\
+  exists l, create depth_stop table_order ck fuel ord m = Ok l /\
     forallb is_create l = true /\ Permutation (map stmt_table l) (map tname m).
-Proof. exact create_each_table_once. Qed.
+Proof. exact (create_each_table_once depth_stop). Qed.
 Print Assumptions C16_create_each_table_once_partial.
 
 Theorem C16_create_same_line_refuted :
@@ -75,17 +88,17 @@ Proof. exact create_same_line_refuted. Qed.
 Print Assumptions C16_create_same_line_refuted.
 
 (* ---- delta script ---- *)
-Theorem C16_delta_identity : forall cfg ck fuel ord m l, delta cfg ck fuel ord m m = Ok l -> l = [].
+Theorem C16_delta_identity : forall sk cfg ck fuel ord m l, delta sk cfg ck fuel ord m m = Ok l -> l = [].
 Proof. exact delta_identity. Qed.
 Print Assumptions C16_delta_identity.
 
-Theorem C16_delta_identity_changes_nothing : forall cfg ck fuel ord m l c,
-  delta cfg ck fuel ord m m = Ok l -> exec c l = XOk c.
+Theorem C16_delta_identity_changes_nothing : forall sk cfg ck fuel ord m l c,
+  delta sk cfg ck fuel ord m m = Ok l -> exec c l = XOk c.
 Proof. exact delta_identity_changes_nothing. Qed.
 Print Assumptions C16_delta_identity_changes_nothing.
 
 (* non-vacuity: the delta of a model with itself does run *)
-Example C16_delta_identity_runs : delta delta_cfg column_order 4 id_ord ex_model ex_model = Ok [].
+Example C16_delta_identity_runs : delta depth_stop delta_cfg column_order 4 id_ord ex_model ex_model = Ok [].
 Proof. vm_compute. reflexivity. Qed.
 
 (* repaired edit kinds: false of the guard variants the repository had, true of the current ones *)
